@@ -63,6 +63,8 @@ type Chaos struct {
 	// Latency is added to every response. A zero-latency network lets a client loop that re-issues a request as soon as
 	// it is answered run forever at one instant of virtual time (nothing ever blocks durably, so timers never fire).
 	Latency time.Duration
+	// OnFrame, if set, sees every request frame (without the 4-byte size prefix) as the client wrote it.
+	OnFrame func(key, version int16, frame []byte)
 }
 
 func NewChaos() *Chaos {
@@ -193,6 +195,9 @@ func (cc *chaosConn) Read(p []byte) (int, error) {
 			frame := cc.rbuf[4 : 4+size]
 			key := int16(binary.BigEndian.Uint16(frame[0:2]))
 			corr := int32(binary.BigEndian.Uint32(frame[4:8]))
+			if f := cc.c.OnFrame; f != nil {
+				f(key, int16(binary.BigEndian.Uint16(frame[2:4])), append([]byte{}, frame...))
+			}
 			cc.mu.Unlock()
 			d := cc.c.request(key)
 			cc.mu.Lock()
